@@ -155,8 +155,9 @@ def assumptions(module, theorems, timeout=600):
         else:
             axs = []
             for line in body.splitlines():
-                mm = re.match(r"^([A-Za-z_][\w.']*)\s*:", line)
-                if mm and not line.startswith(" "):
+                # one entry per unindented line: "name : type" or "name" alone with the type on the following indented lines
+                mm = re.match(r"^([A-Za-z_][\w.']*)\s*(:|$)", line)
+                if mm and not line.startswith(" ") and line.strip() != "Axioms:":
                     axs.append(mm.group(1))
             res[t] = axs if axs else [body[:200]]
     return res, (out if rc != 0 else "")
@@ -298,10 +299,49 @@ def violation(run, payload, nofail=False):
     sys.exit(1)
 
 
+# Axioms the standard library itself declares and that the floating-point level theorems (Properties/*f.v) rest on:
+# the classical real numbers, and the specification of the kernel's primitive binary64 floats.  Fully qualified as
+# coqchk prints them; Print Assumptions prints a suffix of these names.  A prefix ending in "." allows a whole
+# standard-library module of axioms (FloatAxioms / Uint63: the *_spec statements of the primitive operations).
+STD_FLOAT_AXIOMS = ("Coq.Reals.ClassicalDedekindReals.sig_not_dec", "Coq.Reals.ClassicalDedekindReals.sig_forall_dec",
+                    "Coq.Logic.FunctionalExtensionality.functional_extensionality_dep", "Coq.Logic.Classical_Prop.classic",
+                    "Coq.Floats.FloatAxioms.")
+PRIM_PRINTED = re.compile(r"^(PrimInt63\.|PrimFloat\.|Uint63\.|Sint63\.)|^(of_uint63|of_int63|normfr_mantissa|ldshiftexp|frshiftexp|float|int)$")
+
+
+def axiom_allowed(name, allowed):
+    """name as printed by Print Assumptions (a suffix of the qualified name) or by coqchk (fully qualified)"""
+    for a in allowed:
+        if a.endswith("."):                       # a whole standard-library module of axioms
+            if name.startswith(a):
+                return True
+            base = name.rsplit(".", 1)[-1]        # Print Assumptions prints a suffix of the qualified name (mul_spec, FloatAxioms.mul_spec)
+            if base in FLOAT_AXIOM_NAMES and ((a + base) == name or (a + base).endswith("." + name)):
+                return True                       # our own tree declares no Axiom at all (scan_forbidden)
+        elif a == name or a.endswith("." + name):
+            return True
+    return False
+
+
+FLOAT_AXIOM_NAMES = set()
+
+
+def load_float_axiom_names():
+    """the names Coq's own FloatAxioms.v declares (read from the installed standard library source)"""
+    if FLOAT_AXIOM_NAMES:
+        return
+    try:
+        src = open("/usr/lib/ocaml/coq/theories/Floats/FloatAxioms.v", encoding="utf-8").read()
+        FLOAT_AXIOM_NAMES.update(re.findall(r"^\s*Axiom\s+([A-Za-z_][\w']*)", src, re.M))
+    except OSError:
+        pass
+
+
 def standard_proof_obligations(run, module, theorems, allowed_axioms=()):
     """make Properties/<module>.vo, statement pins are inside the file; Print Assumptions; forbidden scan.
     Returns the list of broken obligations (names)."""
     broken = []
+    load_float_axiom_names()
     rc, out, dt = make(["Properties/%s.vo" % module])
     run.cov["make_s"] = round(dt, 1)
     if rc != 0:
@@ -317,10 +357,12 @@ def standard_proof_obligations(run, module, theorems, allowed_axioms=()):
             run.oblige("theorem %s.%s" % (module, t), False, "theorem missing")
             broken.append(("theorem %s.%s" % (module, t), "not found in compiled module\n" + err[-800:]))
             continue
-        bad = [a for a in axs if a not in allowed_axioms]
+        if allowed_axioms:
+            axs = [a for a in axs if not PRIM_PRINTED.search(a)]      # kernel primitives are not axioms of ours
+        bad = [a for a in axs if not axiom_allowed(a, allowed_axioms)]
         run.oblige("theorem %s.%s" % (module, t), not bad,
                    "Print Assumptions: " + ("closed under the global context" if not axs else ", ".join(axs)))
-        run.assume.append("%s.%s depends on: %s" % (module, t, "no axioms" if not axs else ", ".join(axs)))
+        run.assume.append("%s.%s depends on: %s" % (module, t, "no axioms" if not axs else "standard-library axioms " + ", ".join(axs)))
         if bad:
             broken.append(("axioms of %s.%s" % (module, t), ", ".join(bad)))
     hits = scan_forbidden()
@@ -336,7 +378,10 @@ def standard_proof_obligations(run, module, theorems, allowed_axioms=()):
         # development that loads them (MathComp's zify, Flocq, our correspondence helpers); they are not declarations of ours
         listed = [a.strip() for a in axioms.splitlines() if a.strip() and a.strip() != "<none>"]
         prim = [a for a in listed if re.match(r"Coq\.(Numbers\.Cyclic\.Int63\.(PrimInt63|Uint63|Sint63)|Floats\.(PrimFloat|FloatOps)|Array\.PArray)\.", a)]
-        foreign = [a for a in listed if a not in prim]
+        foreign = [a for a in listed if a not in prim and not axiom_allowed(a, allowed_axioms)]
+        std = [a for a in listed if a not in prim and axiom_allowed(a, allowed_axioms)]
+        if std:
+            run.assume.append("coqchk: standard-library axioms loaded by Properties/%s: %s" % (module, ", ".join(std)))
         if prim:
             run.assume.append("coqchk lists %d kernel primitives (PrimInt63/PrimFloat) loaded through libraries; no other axiom" % len(prim))
         axioms = "<none>" if not foreign else ", ".join(foreign)
